@@ -35,6 +35,13 @@ def ival(v):
     return 'f' + repr(float(v))
 
 
+class Num(int):
+    """an integer parameter as a user would get it from a configuration reader or a numeric library: EQUAL to the
+    plain int, hashable like it, but never the same object as the interpreter's cached small ints (arithmetic on it
+    yields plain ints again).  A correct library compares numbers by value, never by identity or exact type."""
+    __slots__ = ()
+
+
 def jn(sep, items):
     items = list(items)
     return sep.join(items) if items else '-'
@@ -247,8 +254,8 @@ def plist(s, sep=','):
     return [] if s in ('-', '', None) else s.split(sep)
 
 
-def preq(s):
-    return {f'r{a}': int(b) for a, b in (e.split(':') for e in plist(s, ';'))}
+def preq(s, num=int):
+    return {f'r{a}': num(b) for a, b in (e.split(':') for e in plist(s, ';'))}
 
 
 class FullRunner(Runner):
@@ -278,6 +285,7 @@ class FullRunner(Runner):
         self.all_resv = []
         self.n_assets = 0
         self.names = {}
+        self._numc = 0
         env = self.env
         runner = self
         orig_add = env.add_datapoint
@@ -303,6 +311,13 @@ class FullRunner(Runner):
         if asset_id not in self.id2idx and asset_id > 0:
             self._sync_assets()      # an asset registered a moment ago (events created by its initialize)
         return self.id2idx.get(asset_id, asset_id)
+
+    def N(self, v):
+        """integer PARAMETER handed to the library: two out of three are `Num` instances (see there); nothing of this
+        shows in the observation stream of a correct library"""
+        v = int(v)
+        self._numc += 1
+        return v if self._numc % 3 == 0 else Num(v)
 
     def add_dev(self, obj):
         self.dev_idx[id(obj)] = len(self.devs)
@@ -364,7 +379,7 @@ class FullRunner(Runner):
             params = {}
             for e in plist(kv.get('params', '-')):
                 t, d, n, c = e.split(':')
-                params[int(t)] = (int(d), int(n), int(c))
+                params[int(t)] = (int(d), self.N(n), self.N(c))
             tgt = len(self.targets)
             dev = kv.get('dev', '-')
             start = None if kv.get('start', '-') == '-' else int(kv['start'])
@@ -428,8 +443,8 @@ class FullRunner(Runner):
             i = len(self.maints)
             args = {}
             if kv.get('cap', 'def') not in ('def',):
-                args['capacity'] = INF if kv['cap'] == 'inf' else int(kv['cap'])
-            m = Maintainer(f'M{i}', value=int(kv.get('value', '0')), **args)
+                args['capacity'] = INF if kv['cap'] == 'inf' else self.N(kv['cap'])
+            m = Maintainer(f'M{i}', value=self.N(kv.get('value', '0')), **args)
             self.maints.append(m)
         elif t == 'sched':
             kv = kvs(toks[1:])
@@ -449,7 +464,7 @@ class FullRunner(Runner):
             i = len(self.sensors)
             args = {}
             if kv.get('cap', 'def') not in ('def',):
-                args['data_capacity'] = INF if kv['cap'] == 'inf' else int(kv['cap'])
+                args['data_capacity'] = INF if kv['cap'] == 'inf' else self.N(kv['cap'])
             if kind == 'per':
                 probes = []
                 for v in plist(kv.get('vars', '-')):
@@ -460,7 +475,7 @@ class FullRunner(Runner):
                 probes = [Probe((lambda tgt: tgt.quality) if a == '0' else (lambda tgt: tgt.value), None)
                           for a in plist(kv.get('attrs', '-'))]
                 if kv.get('n', 'def') != 'def':
-                    args['sensing_interval'] = int(kv['n'])
+                    args['sensing_interval'] = self.N(kv['n'])
                 s = OutputPartSensor(self.devs[int(kv['proc'])], probes, name=f'N{i - i % 2}', **args)
             runner = self
             for c in range(int(kv.get('cbs', '0'))):
@@ -497,17 +512,17 @@ class FullRunner(Runner):
         name = f'D{i}'
         ups = [self.devs[int(u)] for u in plist(kv.get('up', '-'))]
         cyc = int(kv.get('cyc', '0')) / self.tick
-        value = int(kv.get('value', '0'))
+        value = self.N(kv.get('value', '0'))
         if kind == 'source':
             args = {}
             if kv.get('budget', 'def') != 'def':
-                args['starting_parts'] = INF if kv['budget'] == 'inf' else int(kv['budget'])
-            gen = GenX(f'P{i}', int(kv.get('pval', '0')), int(kv.get('pqual', '1')), int(kv.get('batchof', '0')), phase=i)
+                args['starting_parts'] = INF if kv['budget'] == 'inf' else self.N(kv['budget'])
+            gen = GenX(f'P{i}', self.N(kv.get('pval', '0')), self.N(kv.get('pqual', '1')), int(kv.get('batchof', '0')), phase=i)
             d = Source(name, gen, cyc, **args)
         elif kind == 'handler':
             d = PartHandler(name, ups, cyc, value)
         elif kind == 'processor':
-            res = preq(kv['res']) if 'res' in kv else None
+            res = preq(kv['res'], self.N) if 'res' in kv else None
             d = ProcX(name, ups, cyc, value, res)
             for spec in plist(kv.get('fincb', '-')):
                 d.add_finish_processing_callback(self.make_part_cb(spec))
@@ -536,7 +551,7 @@ class FullRunner(Runner):
         elif kind == 'buffer':
             args = {}
             if kv.get('cap', 'def') != 'def':
-                args['capacity'] = None if kv['cap'] == 'inf' else int(kv['cap'])
+                args['capacity'] = None if kv['cap'] == 'inf' else self.N(kv['cap'])
             d = Buffer(name, ups, int(kv.get('delay', '0')) / self.tick, value=value, **args)
         elif kind == 'gate':
             pred = kv.get('pred', 'always').split(':')
@@ -551,7 +566,7 @@ class FullRunner(Runner):
             d = DecisionGate(name, ups, decider)
         elif kind == 'batcher':
             bsz = kv.get('bsz', '-')
-            d = PartBatcher(name, ups, value, None if bsz in ('-', 'def', 'inf') else int(bsz))
+            d = PartBatcher(name, ups, value, None if bsz in ('-', 'def', 'inf') else self.N(bsz))
         elif kind == 'sink':
             d = Sink(name, ups, cyc, kv.get('collect', '0') == '1')
         elif kind == 'gpath':
@@ -579,7 +594,7 @@ class FullRunner(Runner):
         rm = self.system.resource_manager
         env = self.env
         if op == 'addres':
-            rm.add_resources(f'r{toks[1]}', int(toks[2]))
+            rm.add_resources(f'r{toks[1]}', self.N(toks[2]))
             return 'ok'
         if op == 'reserve':
             # the SAME dictionary object is passed for equal requests (callers reuse their request
@@ -587,14 +602,14 @@ class FullRunner(Runner):
             cache = self.__dict__.setdefault('_req_cache', {})
             req = cache.get(toks[2])
             if req is None or req != preq(toks[2]):
-                req = cache[toks[2]] = preq(toks[2])
+                req = cache[toks[2]] = preq(toks[2], self.N)
             r = rm.reserve_resources(req)
             self.set_hvar(int(toks[1]), r)
             return 'ret none' if r is None else 'ret some'
         if op == 'release':
             v = self.get_var(int(toks[1]))
             if len(toks) > 2:
-                v.release(preq(toks[2]))
+                v.release(preq(toks[2], self.N))
             else:
                 v.release()
             return 'ok'
@@ -604,7 +619,7 @@ class FullRunner(Runner):
             return 'ok'
         if op == 'register':
             k = int(toks[1])
-            req = preq(toks[2])
+            req = preq(toks[2], self.N)
             runner = self
 
             def cb(manager, request, k=k, req=req):
@@ -630,7 +645,7 @@ class FullRunner(Runner):
             self.devs[int(toks[1])].block_input = toks[2] == '1'
             return 'ok'
         if op == 'adjust':
-            self.devs[int(toks[1])].adjust_part_count(int(toks[2]))
+            self.devs[int(toks[1])].adjust_part_count(self.N(toks[2]))
             return 'ok'
         if op == 'setcycle':
             self.devs[int(toks[1])].cycle_time = int(toks[2]) / self.tick
@@ -649,7 +664,7 @@ class FullRunner(Runner):
             r = m.create_work_order(self.targets[int(toks[2])]['obj'], tuple([int(toks[3])]), int(toks[4]))
             return 'ret 1' if r else 'ret 0'
         if op == 'setparams':
-            self.targets[int(toks[1])]['params'][int(toks[2])] = (int(toks[3]), int(toks[4]), int(toks[5]))
+            self.targets[int(toks[1])]['params'][int(toks[2])] = (int(toks[3]), self.N(toks[4]), self.N(toks[5]))
             return 'ok'
         if op == 'regobj':
             s = self.scheds[int(toks[1])]
